@@ -56,15 +56,23 @@ def preemptions(steps):
   return n
 
 
+_abnormal = [False]
+MAX_STEPS = 1000     # no legitimate schedule of the generated configurations comes near (measure <= ~500)
+
+
 def explore(wait, script, bound, cap):
-  """All schedules of the implementation with at most `bound` pre-emptions (depth first, at most `cap`)."""
+  """All schedules of the implementation with at most `bound` pre-emptions (depth first, at most `cap`).
+  A run that does not end by itself (step bound, hang, exception) is reported once and not expanded."""
   res, stack = [], [([], 0)]
   while stack and len(res) < cap:
     prefix, used = stack.pop()
-    obs = S.run_schedule(wait, script, follow(prefix))
+    obs = S.run_schedule(wait, script, follow(prefix), max_steps=MAX_STEPS)
     steps = obs["steps"]
     sched = [s[0] for s in steps]
     res.append(sched)
+    if obs["status"] not in ("completed", "deadlock"):
+      _abnormal[0] = True
+      return res[-1:], False
     for i in range(len(steps) - 1, len(prefix) - 1, -1):
       prev = steps[i - 1][0] if i > 0 else 0
       en = steps[i][2]
@@ -82,7 +90,9 @@ def random_walk(wait, script, rng, pswitch):
     if cur in en and rng.random() >= pswitch:
       return cur
     return en[rng.randrange(len(en))]
-  obs = S.run_schedule(wait, script, ch)
+  obs = S.run_schedule(wait, script, ch, max_steps=MAX_STEPS)
+  if obs["status"] not in ("completed", "deadlock"):
+    _abnormal[0] = True
   return [s[0] for s in obs["steps"]]
 
 
@@ -132,6 +142,7 @@ def small_configs(tier):
 
 def gen_sched(tier, rng):
   seen = set()
+  _abnormal[0] = False
 
   def emit(wait, script, sched, tags):
     key = json.dumps([wait, script, sched])
@@ -152,6 +163,8 @@ def gen_sched(tier, rng):
       c = emit(wait, script, sc, [tag, "wait" if wait else "nowait", "bounded"])
       if c:
         yield c
+    if _abnormal[0]:
+      return        # a run did not end by itself: one witness is enough, do not pile up runaway threads
   # seeded random walks over bigger configurations
   n = 400 if tier == "quick" else 4000
   for _ in range(n):
@@ -173,6 +186,8 @@ def gen_sched(tier, rng):
     c = emit(wait, script, sched, ["random", "np=%d" % np_, "wait" if wait else "nowait"])
     if c:
       yield c
+    if _abnormal[0]:
+      return
 
 
 WITNESSES = []
@@ -180,7 +195,7 @@ WITNESSES = []
 # ---------------------------------------------------------------------------- running and printing
 
 def run_sched(c):
-  return S.run_schedule(c["wait"], c["script"], follow(c["sched"], None))
+  return S.run_schedule(c["wait"], c["script"], follow(c["sched"], None), max_steps=MAX_STEPS + 50)
 
 
 def lit_cmd(cmd):
@@ -212,6 +227,7 @@ def lit_case(c, o):
     elif k == "stop": evs.append("EStopS %d" % e[1])
     elif k == "start": evs.append("EStartS %d" % e[1])
     elif k == "close": evs.append("ECloseS %d" % e[1])
+    elif k == "halt": evs.append("EHalt %d" % e[1])
     elif k == "terminate": evs.append("ETerminate")
     elif k == "play_raise": evs.append("EPlayRaise")
     elif k == "assert_fail": evs.append("EAssertFail")
